@@ -27,19 +27,23 @@ except Exception as _e:                                    # the extractor faili
     GEN_DATA, GEN_CHANGED = {"error": repr(_e)}, []
 
 FUNCTIONAL = False
-LEVEL_TEXT = ("Lean theorems about the transcription of Bits.__str__/_repr/pp: parseAuto (strForm l) = l for every bit list of at most "
-              "4*MAX_CHARS bits (hex / bin / mixed form, every residue mod 4), longer values end in '...', repr names class, bits and pos "
-              "recoverably and reports the true length when truncated; the pp layout (groups per line from width, offset column, "
-              "trailing bits, the ungrouped 24-bit arithmetic, msb0 and lsb0) lists exactly the digit groups of the data in order "
-              "(so no group is split), every line is within width unless it holds one group (one character / one 24-bit unit when "
-              "ungrouped), and emits no escape character when colour is off. MAX_CHARS, the *_bits2chars graphs (0..512) and the "
-              "default group sizes are re-extracted from the source each run and tied to the model by generated obligations. "
-              "Correspondence: str/repr for lengths 0..70, 990..1010 and beyond x 4 classes x pos x msb0/lsb0, literal parser, pp over "
-              "format pairs x group sizes x widths 0..200 x separators x show_offset x lsb0 x no_color, Array.__repr__.")
+LEVEL_TEXT = ("47 Lean theorems about the transcription of Bits.__str__/_repr/pp (all proved, none partial): parseAuto (strForm l) = l for "
+              "every bit list of at most 4*MAX_CHARS bits (hex / bin / mixed form, every residue mod 4) under msb0 and lsb0, longer values "
+              "end in '...' after the hex of the leading 1000 bits, eval of the repr text gives back class, bits and pos and a truncated "
+              "repr ends with the true length; the pp layout (groups per line from width, offset column, trailing bits, the ungrouped "
+              "24-bit arithmetic, msb0 and lsb0) lists exactly the digit groups of the data in order (so no group is split, digits "
+              "complete in both columns), all lines have one length which is within width unless the line holds one group (one "
+              "character / one 24-bit unit when ungrouped), no escape character is emitted when colour is off, pp fails only with "
+              "ValueError and succeeds on every representable value. MAX_CHARS, the *_bits2chars graphs (0..512) and the default group "
+              "sizes are re-extracted from the source each run and tied to the model by generated obligations. Correspondence: str/repr "
+              "for lengths 0..70, 990..1010 and beyond x 4 classes x pos x msb0/lsb0 (+ every value of the 1-3 tail bits), file-backed "
+              "repr, literal parser, pp over format pairs x group sizes x widths 0..200 x separators x show_offset x lsb0 x no_color, "
+              "Array.__repr__. Two known findings (Array repr with > 1000 trailing bits; repr of a mutated file-backed BitArray).")
 LEVEL_NOTE = ("Trusted: Lean kernel (+propext, Classical.choice, Quot.sound); harness/extract_C19.py; the correspondence harness and its "
-              "parser of pp output; bitarray's ba2hex/ba2base/to01 are modelled as digit strings. Array.__repr__ is modelled for "
-              "int/uint/bin/oct/hex/bool items only; float-like dtypes are checked by eval on the implementation. 'Smallest displayable "
-              "unit' of two ungrouped formats is read as the code's 24-bit quantum.")
+              "parser of pp output; bitarray's ba2hex/ba2base/to01 are modelled as digit strings; eval of a repr text is modelled by a "
+              "hand-written parser (parseRepr / evalFileRepr). Array.__repr__ is modelled for int/uint/bin/oct/hex/bool items only; "
+              "float-like, bytes and bits dtypes are checked by eval on the implementation. 'Smallest displayable unit' of two "
+              "ungrouped formats is read as the code's 24-bit quantum.")
 TECHNIQUE = "Lean 4 proof (round trip of the printed form, layout arithmetic) + differential correspondence on parsed pp output"
 NOT_YET_PROVED = []
 
